@@ -240,5 +240,13 @@ for name, mod in mods.items():
             stmts.append(["def", st.target.id, []])
         elif isinstance(st, (ast.Try, ast.With)):
             fail(f"translator: module-level {type(st).__name__} in {path}:{st.lineno} is not understood")
-    out["modules"][name] = {"package": path.endswith("__init__.py"), "stmts": stmts}
+    def _is_reg(nd):
+        if not isinstance(nd, ast.Call):
+            return False
+        f = nd.func
+        if isinstance(f, ast.Name):
+            return f.id in ("register_class", "register")
+        return isinstance(f, ast.Attribute) and f.attr in ("register_class", "register") and isinstance(f.value, ast.Name) and f.value.id == "registry"
+    registers = name != "quansino.registry" and any(_is_reg(nd) for nd in ast.walk(tree))
+    out["modules"][name] = {"package": path.endswith("__init__.py"), "stmts": stmts, "registers": bool(registers)}
 print(json.dumps(out))
